@@ -16,18 +16,20 @@ class Gen:
     def leaves(self, pool):
         return "".join(self.r.choice(pool) for _ in range(self.r.randint(1, 3)))
 
-    def prog(self, d, pool):
-        return "".join(self.item(d, pool) for _ in range(self.r.randint(1, 3)))
+    def prog(self, d, pool, nofn=False):
+        return "".join(self.item(d, pool, nofn) for _ in range(self.r.randint(1, 3)))
 
-    def item(self, d, pool):
+    def item(self, d, pool, nofn=False):
         r = self.r
         if d == 0 or r.random() < 0.45:
             return r.choice(pool)
         inner = NOVAR if pool is LEAVES else pool
-        p = lambda pl=pool: self.prog(d - 1, pl)
+        p = lambda pl=pool, nf=nofn: self.prog(d - 1, pl, nf)
         kinds = ["if", "if2", "if3", "for", "forv", "while", "lam", "lam2", "list", "list2", "brk", "cont"]
         if pool is not PURE:
-            kinds += ["map", "filt", "sort", "fdef", "fdef2", "fdefn", "lamret", "fnret", "fixed", "fixed"]
+            kinds += ["map", "filt", "sort", "lamret", "fixed", "fixed"]
+            if not nofn:  # a definition inside a function body is a Python-local name (undocumented scoping): outside the claim
+                kinds += ["fdef", "fdef2", "fdefn", "fnret"]
         k = r.choice(kinds)
         if k == "if":
             return "?[" + p() + "]" if pool is not PURE else ":[" + p() + "]"
@@ -57,11 +59,11 @@ class Gen:
         if k == "list2":
             return "⟨" + p(inner) + "|" + p(inner) + "⟩"
         if k == "fdef":
-            return "@g:1|" + p(inner) + ";?@g;"
+            return "@g:1|" + p(inner, True) + ";?@g;"
         if k == "fdef2":
-            return "@j:2|" + p(inner) + ";??@j;"
+            return "@j:2|" + p(inner, True) + ";??@j;"
         if k == "fdefn":
-            return "@m:a|" + p(inner) + "←a;?@m;"
+            return "@m:a|" + p(inner, True) + "←a;?@m;"
         if k == "brk":
             return c + ("ȧ" if pool is PURE else "") + "(" + p() + c + "[X]" + p() + ")"
         if k == "cont":
@@ -69,7 +71,7 @@ class Gen:
         if k == "lamret":
             return "λ" + p(inner) + "?[X]" + p(inner) + ";†"
         if k == "fnret":
-            return "@q:1|" + p(inner) + "?[X]" + p(inner) + ";?@q;"
+            return "@q:1|" + p(inner, True) + "?[X]" + p(inner, True) + ";?@q;"
         return r.choice(FIXED)
 
     def program(self, depth):
